@@ -573,9 +573,38 @@ func (c *otContext) substituteBeforePosition() {
 
 	c.plan.substitute(c.font, buffer)
 
+	c.ensureMonotoneClusters()
+
 	//
 	if c.plan.applyMorx && c.plan.applyGpos {
 		aatLayoutRemoveDeletedGlyphs(buffer)
+	}
+}
+
+// ensureMonotoneClusters is a safety net after substitution. The reordering of the complex
+// shapers merges the clusters it disturbs, but not in every case: inside a broken syllable
+// at cluster level MonotoneCharacters (U+200C U+093F U+094D), or when the buffer is shaped
+// in reverse because the direction is opposite to the native direction of the script, cluster
+// values can be left going back and forth. The two monotone cluster levels promise monotone
+// clusters, so whatever is out of order is merged here.
+func (c *otContext) ensureMonotoneClusters() {
+	buffer := c.buffer
+	if buffer.ClusterLevel == Characters || len(buffer.Info) < 2 {
+		return
+	}
+	// the buffer is in logical order unless ensureNativeDirection() reversed it
+	ascending := buffer.Props.Direction == c.targetDirection
+	info := buffer.Info
+	for i := 1; i < len(info); i++ {
+		if a, b := info[i-1].Cluster, info[i].Cluster; a == b || (a < b) == ascending {
+			continue
+		}
+		// out of order: merge with every earlier glyph that is on the wrong side of info[i]
+		j := i - 1
+		for j > 0 && info[j-1].Cluster != info[i].Cluster && (info[j-1].Cluster < info[i].Cluster) != ascending {
+			j--
+		}
+		buffer.mergeClusters(j, i+1)
 	}
 }
 
